@@ -259,7 +259,10 @@ def oracleC10 (s : SyncCase) : Option String :=
   -- without a finalize hook a leftover finalizer is removed: after an error-free sync the live parent (same UID) no longer carries it
   orElse (match s.parent, s.parentAfter with
     | some p, some q =>
-        check (s.finalizeEnabled || !hasFinalizer p fin || s.outcome != "ok" || getUID q != getUID p || s.calls.any (·.injected) || !hasFinalizer q fin)
+        -- (or the controller did get its removal accepted and somebody else put the finalizer back afterwards)
+        let removedOnce := s.calls.any (fun r => s.isParentTarget r && r.verb == "update" && r.ok &&
+          (match r.post with | some x => !hasFinalizer x fin | none => false))
+        check (s.finalizeEnabled || !hasFinalizer p fin || s.outcome != "ok" || getUID q != getUID p || s.calls.any (·.injected) || !hasFinalizer q fin || removedOnce)
           "no finalize hook is configured, yet the controller's leftover finalizer is still on the parent after the sync"
     | _, _ => none) fun _ =>
   -- an accepted parent update changes no finalizer but the controller's own
